@@ -33,6 +33,8 @@ def _worker(args):
     mod = importlib.import_module(modname)
     harness = getattr(mod, item["harness"])
     t0 = time.monotonic()
+    from . import core as _core
+    _core.ARITH_SOLVER = item.get("arith_solver", opts.get("arith_solver"))
     try:
         ex = Explorer(harness, item["params"], query_timeout_ms=item.get("query_timeout_ms", opts["qto"]),
                       path_wall_s=item.get("path_wall_s", opts["path_wall"]),
@@ -183,6 +185,8 @@ def run_check(modname, tier, seed, replay=None):
     if unrep_exc:
         harness_problems.append("exception/timeout on a symbolic path that does not reproduce natively on %d path(s) (first: %s)" % (
             len(unrep_exc), json.dumps(jsonable(unrep_exc[0]))[:400]))
+    if total.boundary_paths > max(5, total.paths // 20):
+        harness_problems.append("too many float-boundary paths without a native witness: %d of %d" % (total.boundary_paths, total.paths))
     if total.paths == 0 or (total.validated == 0 and getattr(mod, "REQUIRE_VALIDATED", True)):
         harness_problems.append("vacuous: %d paths, %d validated" % (total.paths, total.validated))
     missing_goals = [g for g in getattr(mod, "GOALS", {}).get(tier, []) if not total.goals.get(g)]
@@ -225,6 +229,7 @@ def run_check(modname, tier, seed, replay=None):
             "discharged": total.proved,
             "obligations_unknown": total.unknown,
             "inconclusive_paths": total.inconclusive_paths,
+            "float_boundary_paths_not_validated": total.boundary_paths,
             "queries": total.queries,
             "solver_time_s": round(total.solver_time, 2),
             "nonlinear_terms": total.nonlinear,
